@@ -291,7 +291,7 @@ def opXM (mode ref : String) : Option String :=
   let mode := if nilrep then (mode.drop 10).toString else mode
   if nilrep then
     (if mode == "string" || mode == "held" then some (show' (Report.exportWithString engine true []))
-     else if mode == "reader" || mode == "chunked" || mode == "heldreader" then some (show' (Report.exportWith engine true (.content [])))
+     else if mode == "reader" || mode == "chunked" || mode == "heldreader" || mode.startsWith "pre:" then some (show' (Report.exportWith engine true (.content [])))
      else if mode == "nilreader" then some (show' (Report.exportWith engine true .nil))
      else if mode.startsWith "fail:" then some (show' (Report.exportWith engine true .fails))
      else none)
@@ -299,7 +299,7 @@ def opXM (mode ref : String) : Option String :=
   if mode == "string" || mode == "held" then some (show' (Report.exportWithString engine false []))
   else if mode == "heldreader" then some (show' (Report.exportWith engine false (.content [])))
   else if mode == "nilreport" then some (show' (Report.exportWithString engine true []))
-  else if mode == "reader" || mode == "chunked" then some (show' (Report.exportWith engine false (.content [])))
+  else if mode == "reader" || mode == "chunked" || mode.startsWith "pre:" then some (show' (Report.exportWith engine false (.content [])))
   else if mode == "nilreader" then some (show' (Report.exportWith engine false .nil))
   else if mode.startsWith "fail:" then some (show' (Report.exportWith engine false .fails))
   else none
